@@ -23,10 +23,14 @@ def build(ctx, n_nests=None):
         index = pd.Index(gen.rand_labels(rng, n, kind="int", pattern="unique_unsorted"), name="obj_id", dtype="int64")
     else:
         index = pd.Index(gen.rand_labels(rng, n, kind="str", pattern="dup_unsorted"), dtype=object)
-    nf = NestedFrame({"a": np.arange(n, dtype=np.int64) * 3, "b": np.array([i / 2.0 for i in range(n)])}, index=index)
-    names = ["n", "m"][:k]
-    for nm in names:
-        ty = [[f"{nm}{j}", t] for j, t in enumerate(rng.sample(gen.TYNAMES, rng.randint(1, 3)))]
+    # column labels: identifier-like, with blanks / punctuation (legal: anything without '.' or '`'), or one label a
+    # string prefix of another
+    bname = rng.choice(["b", "b", "b b", "b (x=1),y"])
+    nf = NestedFrame({"a": np.arange(n, dtype=np.int64) * 3, bname: np.array([i / 2.0 for i in range(n)])}, index=index)
+    names = rng.choice([["n", "m"], ["n", "m"], ["light curve", "m"], ["obj", "obj_lc"], ["lc", "lc2"], ["n;1", "n"]])[:k]
+    fsuffix = rng.choice(["", "", " (mJy)"])
+    for jn, nm in enumerate(names):
+        ty = [[f"{'nm'[jn]}{j}{fsuffix}", t] for j, t in enumerate(rng.sample(gen.TYNAMES, rng.randint(1, 3)))]
         s = Subject(ctx, allow_hidden=False, nrows=n, ty=ty)
         subs.append(s)
         nf[nm] = pd.Series(s.fresh_ext(), index=nf.index, name=nm)
@@ -224,6 +228,12 @@ def selections(rng, schema, k):
         out.append(inter + ["a"])
     if nests:
         out.append([nests[0], f"{nests[0]}.{dict(schema)[nests[0]][0]}"])
+    # directed: a whole column whose label is a string prefix of the label of a partially loaded nest
+    for c in names:
+        for nn in nests:
+            if nn != c and nn.startswith(c):
+                out.append([c, f"{nn}.{dict(schema)[nn][0]}"])
+                out.append([f"{nn}.{dict(schema)[nn][-1]}", c])
     return out
 
 
